@@ -138,7 +138,11 @@ def qid(k):
 
 
 def make_register(nq, spacing=6.0):
-    return pulser.Register({qid(k): (spacing * (k - 1), 0.0) for k in range(1, nq + 1)})
+    """q1, q2, ... on a line, deliberately NOT listed in ascending coordinate order (q1 in the
+    middle, q2 leftmost, ...), so that anything that confuses the order of the ids with the
+    canonical order of the coordinates shows."""
+    xs = [1, 0, 2, 4, 3, 5, 7, 6][:nq]
+    return pulser.Register({qid(k): (spacing * xs[k - 1], 0.0) for k in range(1, nq + 1)})
 
 
 def mask_to_ids(mask, nq_max=8):
